@@ -734,6 +734,27 @@ pub fn c18(ctx: &Ctx) {
 							rep.violation(&format!("skip-outcome:{}", ops.name), format!("{}: on {} ({origin}) skip {} but decode {}", ops.name, hex(&b[..b.len().min(48)]), if sk { "succeeds" } else { "fails" }, if de { "succeeds" } else { "fails" }), replay_json("C18", ops, &b, &[]));
 						} else if sk && s1.pos != s2.pos {
 							rep.violation(&format!("skip-position:{}", ops.name), format!("{}: on {} skip advances the input to {} but decode to {}", ops.name, hex(&b[..b.len().min(48)]), s1.pos, s2.pos), replay_json("C18", ops, &b, &[]));
+						} else if sk && s1.depth != s2.depth {
+							// the input is left at a different nesting level: a following depth-limited
+							// decode on the same input would behave differently
+							rep.violation(&format!("skip-depth:{}", ops.name), format!("{}: on {} skip leaves the input at nesting depth {} but decode at {}", ops.name, hex(&b[..b.len().min(48)]), s1.depth, s2.depth), replay_json("C18", ops, &b, &[]));
+						}
+						// the same through a depth limiter that is just sufficient for decoding
+						if de && s2.max_depth > 0 {
+							let lim = s2.max_depth as u32;
+							let mut s3 = SpyInput::new(&b);
+							let mut ok3 = false;
+							let _ = catch(|| {
+								let mut cb = |i: &mut dyn Input| -> Result<(), Error> {
+									ok3 = (d.skip)(i);
+									Ok(())
+								};
+								let _ = with_stack(&mut s3, &[Layer::Depth(lim)], &mut cb);
+							});
+							rep.count("skip_under_depth_limit");
+							if !ok3 {
+								rep.violation(&format!("skip-depth-limit:{}", ops.name), format!("{}: on {} decode needs nesting depth {lim}, but skip fails under that depth limit", ops.name, hex(&b[..b.len().min(48)])), replay_json("C18", ops, &b, &[("limit", lim.to_string())]));
+							}
 						}
 					},
 				}
